@@ -290,18 +290,13 @@ def step (d : DState) (l : Line) : DState × List Verdict :=
         -- the host failed to process blocks of a legal chain
         let cause := if spendAtMatHere then "spend_at_maturity_height" else resCause res
         let name := if isC17Failure res then s!"c17/update_never_fails/{cause}" else s!"c16/update_never_fails/{cause}"
-        -- correspondence: some transcribed variant must fail too
-        let explained := cands.any fun c => match candView c with | .error _ => true | .ok _ => false
-        let es2 := match es with | .error _ => true | .ok _ => false
-        let vs : List Verdict := [.monitor name res] ++
-          (if explained || es2 then [] else [])
-        ({ d1 with dead := true }, vs)
+        ({ d1 with dead := true }, [.monitor name res])
       else
       -- ---- observations
       match getUtxos l.obs "utxo", getPairs l.obs "ev", getNat l.obs "bal", getNat l.obs "imm",
             getNat l.obs "mbal", getNat l.obs "mimm", getKeyOpt l.obs "aidx", getNat l.obs "aaddr", getNat l.obs "ahash",
             getPairs l.obs "idx", getIntList l.obs "cel", getStrList l.obs "acc", getInt l.obs "mkidx", getInt l.obs "mkcel",
-            getNat l.obs "hostrej", getPairs l.obs "tip" with
+            getNat l.obs "hostrej", getStr l.obs "tip" with
       | some outx, some oev, some bal, some imm, some mbal, some mimm, some aidx, some aaddr, some ahash,
         some oidx, some ocel, some acc, some mkidx, some mkcel, some hostrej, some _ =>
         let spec := specOf (stack.map (·.u.d))
